@@ -52,10 +52,10 @@ def run(ctx):
     if rc != 0:
         ctx.oblige("run:explorer", False, out[-800:])
         return ctx.finish()
-    # function level through the hook, when /repo carries it
-    hook = "pub mod verif" in open(os.path.join(REPO, "crates/tags/src/tags.rs")).read()
-    hook_note = "hook hooks/C18-reexport.diff not applied: private line_range/utf16_len exercised only through generate_tags and LossyUtf8"
-    if hook and not ctx.replay:
+    # function level through the hook.  Whether /repo carries the hook is decided by a BUILD PROBE (does the
+    # bin that calls tree_sitter_tags::verif::{line_range, utf16_len} compile?), not by matching source text.
+    hook_note = "hook hooks/C18-reexport.diff not present (c18fn does not build against tree_sitter_tags::verif): private line_range/utf16_len exercised only through generate_tags and LossyUtf8"
+    if not ctx.replay:
         rc, o = sh(["cargo", "rustc", "--release", "--offline", "--bin", "c18fn", "--", "--cfg", "tsv_c18_hook"], cwd=HARNESS, timeout=3000)
         if rc == 0:
             ops2 = os.path.join(ctx.workdir, "ops_fn.txt")
@@ -66,8 +66,8 @@ def run(ctx):
                 hook_note = "hook present: " + o.strip().split("\n")[-1]
             else:
                 hook_note = "hook present but c18fn failed (optional step, skipped): " + o[-300:]
-        else:
-            hook_note = "hook present but c18fn does not build (optional step, skipped): " + o[-300:]
+        elif "verif" not in o:
+            hook_note = "c18fn does not build for a reason other than a missing hook (optional step, skipped): " + o[-300:]
     ctx.notes.append(hook_note)
     ctx.log(hook_note)
     specs = {}
@@ -161,6 +161,10 @@ def run(ctx):
                       fingerprint={"corr": "diff"}, found_input=False)
     ctx.oblige("corr:runTags=generate_tags", bool(matching) or corr_cases == 0,
                "%d cases differ from the as-is port; variants matching all cases: %s" % (corr_bad_asis, matching))
+    if matching and not ctx.replay:
+        # the corpus holds a distinguishing input for every repaired defect (ignored placeholder at the drain,
+        # multi-row name, ill-formed UTF-8), so the behaviour of the real code decides the variant uniquely
+        ctx.oblige("variant:decided-by-probes", len(matching) == 1, "variants matching all cases: %s" % matching)
     if matching and matching[0] != "as-is":
         ctx.notes.append("the code matches the model variant '%s' (a proposed fix is applied), not the pinned as-is port" % matching[0])
         ctx.log("NOTE: code matches variant %s" % matching[0])
